@@ -3859,11 +3859,12 @@ static void DecodeTBL(Word Index) {
                     CodeLen = 4 + AdrResult.Cnt;
                 }
             } else {
-                strcpy(ArgStr[3].str.p_str, p + 1);
-                *p = '\0';
-                if (DecodeAdr(&ArgStr[1], MModData, &AdrResult)) {
+                tStrComp LeftArg, RightArg;
+
+                StrCompSplitRef(&LeftArg, &RightArg, &ArgStr[1], p);
+                if (DecodeAdr(&LeftArg, MModData, &AdrResult)) {
                     w2 = AdrResult.Mode;
-                    if (DecodeAdr(&ArgStr[3], MModData, &AdrResult)) {
+                    if (DecodeAdr(&RightArg, MModData, &AdrResult)) {
                         WAsmCode[0] = 0xf800 | w2;
                         WAsmCode[1]
                                 = 0x0000 | (OpSize << 6) | (Mode << 12) | AdrResult.Mode;
